@@ -185,6 +185,69 @@ mod verif_c19t {
         kani::cover!(off == StrokeOffset::Right);
     }
 
+    /// Stand-in for Scanline::bresenham_intersection as a pure function of the line: an arbitrary (possibly
+    /// empty) run per line, merged into the scanline as a hull -- which is what the real function does with the
+    /// run of Bresenham pixels on that row (c19_thick_segment_skeleton_row / c19_triangle_row use the real one).
+    static mut EDGE_RUNS: [(i32, i32); 8] = [(0, 0); 8];
+    fn edge_run(line: &Line) -> (i32, i32) {
+        let h = (line.start.x as u32).wrapping_mul(3) ^ (line.start.y as u32).wrapping_mul(5) ^ (line.end.x as u32).wrapping_mul(7) ^ (line.end.y as u32).wrapping_mul(11);
+        unsafe { EDGE_RUNS[(h & 7) as usize] }
+    }
+    fn bresenham_fixed(s: &mut Scanline, line: &Line) {
+        let (a, b) = edge_run(line);
+        if a < b {
+            if s.x.start >= s.x.end {
+                s.x = a..b;
+            } else {
+                s.x = s.x.start.min(a)..s.x.end.max(b);
+            }
+        }
+    }
+
+    /// Every row of a filled triangle is the hull of the row runs of ALL three edges of the (y, x)-sorted
+    /// triangle -- for any triangle of any size and any row (a colinear triangle: its long edge only). Decides
+    /// that no edge is left out on any row (e.g. on the row of the middle vertex), which the bounded grid of
+    /// c19_triangle_row cannot see for shallow edges with long runs. Unbounded; edge runs through the stand-in.
+    //@harness prop=C19,C05 kind=contract tier=quick class=P kani="--no-assertion-reach-checks" fns=src/primitives/triangle/mod.rs::Triangle::scanline_intersection
+    #[kani::proof]
+    #[kani::unwind(9)]
+    #[kani::stub(crate::primitives::common::Scanline::bresenham_intersection, bresenham_fixed)]
+    fn c19_triangle_row_is_hull_of_all_edges() {
+        let mut i = 0;
+        while i < 8 {
+            let (a, b): (i32, i32) = (kani::any(), kani::any());
+            kani::assume(-4096 <= a && a <= b && b <= 4096);
+            unsafe { EDGE_RUNS[i] = (a, b); }
+            i += 1;
+        }
+        let t = Triangle::new(any_point(1024), any_point(1024), any_point(1024));
+        let y: i32 = kani::any();
+        kani::assume(-2048 <= y && y <= 2048);
+        let row = t.scanline_intersection(y);
+        let [p1, p2, p3] = t.sorted_yx().vertices;
+        // the same degeneracy test as the code (the doubled area as computed by Triangle::area_doubled; its exactness
+        // is c19_area_and_clockwise): comparing two polynomial forms of the area is out of the SAT solver's reach
+        let colinear = t.area_doubled() == 0;
+        let runs = if colinear {
+            [edge_run(&Line::new(p1, p3)), (0, 0), (0, 0)]
+        } else {
+            [edge_run(&Line::new(p1, p2)), edge_run(&Line::new(p1, p3)), edge_run(&Line::new(p2, p3))]
+        };
+        let nonempty = |r: (i32, i32)| r.0 < r.1;
+        let q: i32 = kani::any();
+        let in_row = row.x.start <= q && q < row.x.end;
+        if !(nonempty(runs[0]) || nonempty(runs[1]) || nonempty(runs[2])) {
+            assert!(!in_row);
+        } else {
+            let lo = runs.iter().filter(|r| nonempty(**r)).map(|r| r.0).min().unwrap();
+            let hi = runs.iter().filter(|r| nonempty(**r)).map(|r| r.1).max().unwrap();
+            assert!(in_row == (lo <= q && q < hi));
+            assert!(row.y == y);
+        }
+        kani::cover!(!colinear && nonempty(runs[0]) && nonempty(runs[1]) && nonempty(runs[2]) && runs[0].1 < runs[1].0 && y == p2.y);
+        kani::cover!(colinear && p1 != p3);
+    }
+
     /// area_doubled / sorted_clockwise: the sign of the doubled area flips when two vertices are swapped
     /// and sorted_clockwise() has a non-negative doubled area (display scale, no overflow)
     //@harness prop=C19 kind=lemma tier=thorough class=P bound="vertices within +-256" timeout=3000 fns=src/primitives/triangle/mod.rs::Triangle::area_doubled;src/primitives/triangle/mod.rs::Triangle::sorted_clockwise
